@@ -205,7 +205,7 @@ func ruleSelectLogsCleanup(r *Run) {
 		}
 		if ex := l.earlyExits(); len(ex) > 0 {
 			good = false
-			o.Fail(r.pos(ex[0][0].Instrs[len(ex[0][0].Instrs)-1].Pos()), "the cleanup loop can be left before every slot was visited (readers opened for later containers leak)")
+			o.Fail(r.pos(termPos(ex[0][0])), "the cleanup loop can be left before every slot was visited (readers opened for later containers leak)")
 		}
 		// the only way to skip Close in an iteration is element == nil
 		var closeCall ssa.CallInstruction
